@@ -54,8 +54,19 @@ func verifH_C57_cache() {
 			removed = true
 		}
 	}
+	// the key may be added again while the first entry's expiry goroutine has started but not yet run (balancergroup does
+	// this on remove / add of one child id around the close timeout)
+	calls2, added2 := 0, false
+	if mode == 0 && verifBool("the-key-is-added-again") {
+		_, added2 = c.Add("k", 43, func() { calls2++ })
+		verifAssert(added2, "after the removals the key is free again")
+	}
 	verifAtQuiescence(func() {
 		// everything, including a pending expiry, has run
+		if added2 {
+			verifAssert(calls2 == 1, "a newer entry under the same key is not dropped by the older entry's expiry: it expires on its own, once")
+			verifCover("re-added")
+		}
 		verifAssert(calls <= 1, "the expiry callback runs at most once")
 		switch mode {
 		case 0:
